@@ -10,6 +10,7 @@ open Gallia Gallia.Proto Gallia.UdsReq Gallia.UdsResp Gallia.UdsMatch
           class   = G | F | U | -  (Genuine / Foreign / UndecodableSameService of Spec/Reply.lean; `-` = none, `?` = several)
     m <raw 0|1> <request pdu> <reply> ->  1 | 0 | -     `matches x q` for the decoded reply (`-` = undecodable);
                                                          q = the request parsed from its bytes, or the opaque raw request
+    r <request pdu> <reply>          ->  1 | 0         `rawPosMatches reply (.raw request)` (RawPositiveResponse.matches)
     c <k> <qk|g> <rdid> <qdid>       ->  1 | 0         `convMatches`
     echo <sid>                       ->  <n> | none    `echoLen`
 -/
@@ -41,6 +42,10 @@ def step (line : String) : String :=
       match decodeResp b with
       | .ok x => b01 («matches» x (if raw == "1" then .raw qb else decode qb))
       | .error _ => "-"
+    | _, _ => "bad-op"
+  | ["r", q, h] =>
+    match parseHex q, parseHex h with
+    | some qb, some b => b01 (rawPosMatches b (.raw qb))
     | _, _ => "bad-op"
   | ["c", k, qk, rdid, qdid] =>
     match k.toNat?, rdid.toNat?, qdid.toNat? with
